@@ -136,6 +136,12 @@ def run_history(args):
                     with open(path, "w") as f:
                         f.write(content)
                     placed.append(path)
+                # also corrupt one file the plugin already wrote (same name, other bytes: an interrupted run, a hand edit)
+                # (the rust plugin owns only a marked region of <test-dir>/src/main.rs: that file is left alone)
+                existing = [f for f in OWNED[plugin](out, test) if os.path.exists(f) and f not in placed and not f.startswith(test)]
+                if existing:
+                    with open(existing[len(existing) // 2], "w") as f:
+                        f.write("stale bytes under an owned name\n")
                 events.append({"e": "Stale", "plugin": plugin})
                 continue
             model = models[a["model"] if a["valid"] else "bad"]
@@ -186,6 +192,14 @@ def check_c16(tier):
     hs = histories(2 if tier == "quick" else 3)
     for shorter in ([1] if tier == "quick" else [1, 2]):
         hs += histories(shorter)
+    must = []
+    if tier == "quick":
+        # always executed: run, corrupt / place stale files, run again (needs length 3)
+        for h in histories(3):
+            a = h["hist"]
+            if (len(a) == 3 and a[0]["a"] == "Run" and a[1]["a"] == "Stale" and a[2]["a"] == "Run" and a[0]["valid"] and a[2]["valid"]
+                    and a[0]["seed"] == "0" and a[2]["seed"] == "1"):
+                must.append(h)
     rnd = random.Random(common.seed())
     full = json.load(open(os.path.join(common.REPO, "generator", "lsp.json")))
     small = closed_submodel(full)
@@ -201,18 +215,22 @@ def check_c16(tier):
         json.dump(bad, open(paths["bad"], "w"))
         jobs = []
         per_plugin = {}
-        for h in hs:
+        for h in must + hs:
             p = h["plugin"]
             invalid = any(a["a"] == "Run" and not a["valid"] for a in h["hist"])
             runs = sum(1 for a in h["hist"] if a["a"] == "Run")
             if runs == 0:
                 continue
-            if tier == "quick":
+            if h in must:
+                pass
+            elif tier == "quick":
                 if invalid and rnd.random() > 0.08:
                     continue
-                if p == "testdata" and rnd.random() > 0.15:
+                if p == "testdata" and rnd.random() > 0.1:
                     continue
-                if p == "dotnet" and rnd.random() > 0.5:
+                if p == "dotnet" and rnd.random() > 0.25:
+                    continue
+                if p in ("python", "rust") and rnd.random() > 0.5:
                     continue
             else:
                 if p == "testdata" and rnd.random() > 0.12:
